@@ -273,7 +273,7 @@ theorem handle_calm (s s' : Sys) (m : Msg) (ms : List Msg) (hc : Calm m = true)
   | reward s1 sender funds rm heq _ _ _ hx' _ _ _ _ _ =>
     subst heq
     exact rewardExec_calm _ _ _ _ _ _ _ _ _ (by intro h; subst h; simp [Calm] at hc) hx'
-  | disp env sender funds dm heq hx' _ _ _ _ _ =>
+  | disp env sender funds dm heq _ _ hx' _ _ _ _ _ =>
     subst heq
     exact dispExec_calm _ _ _ _ _ _ _ (by intro a b h; subst h; simp [Calm] at hc) hx'
   | reg s1 sender funds rm heq _ _ _ hx' _ _ _ _ _ =>
